@@ -246,6 +246,38 @@ def clauseLookup (b : State) (op : Op) (out : Out) : Bool :=
      | none => out == .err .notfound)
   | _ => true
 
+
+/-- what `setParameterValue(n, v)` on the list `l` must do -/
+def updateOk (b : State) (l : List ObjId) (n : String) (v : Rat) (out : Out) (a : State) : Bool :=
+  match find? b.heap l n with
+  | none => out == .err .notfound
+  | some t =>
+    if (b.heap.get t).rejects v && decide (v ≠ (b.heap.get t).value) then out == .err .constraint
+    else out == .ok && a.heap.get t == { b.heap.get t with value := v }
+
+/-- clause `include_share_collision_updates` / single updates -/
+def clauseUpdate (b : State) (op : Op) (out : Out) (a : State) : Bool :=
+  match op with
+  | .setValue k n v => updateOk b (b.lists k) n v out a
+  | .apSetValue k n v => updateOk b (b.lists k) (b.pre k ++ n) v out a
+  | .share k j n =>
+    match find? b.heap (b.lists j) n with
+    | some i =>
+      if hasParameter b.heap (b.lists k) n then updateOk b (b.lists k) n (b.heap.get i).value out a else true
+    | none => true
+  | _ => true
+
+/-- specification of `deleteParameters(names, mustExist)` for pairwise different names -/
+def clauseDeleteNames (b : State) (op : Op) (out : Out) (a : State) : Bool :=
+  match op with
+  | .delNames k ns must =>
+    !decide ns.Nodup ||
+      (let nm := names b.heap (b.lists k)
+       let pre := if must then ns.takeWhile (fun n => nm.contains n) else ns
+       names b.heap (a.lists k) == pre.foldl (fun acc n => acc.erase n) nm &&
+       out == (if pre.length == ns.length then .ok else .err .notfound))
+  | _ => true
+
 /-- all clauses; `none` = every clause holds, `some c` = clause `c` is false -/
 def checkStep (n : Nat) (b : State) (op : Op) (out : Out) (fired : Option (List ObjId)) (a : State) :
     Option String :=
@@ -260,6 +292,8 @@ def checkStep (n : Nat) (b : State) (op : Op) (out : Out) (fired : Option (List 
   else if !clauseDelete b op out a then some "delete_exact"
   else if !clauseAdd b op out a then some "add_dup_refused"
   else if !clauseLookup b op out then some "lookup_exact"
+  else if !clauseUpdate b op out a then some "include_share_collision_updates"
+  else if !clauseDeleteNames b op out a then some "delete_names_exact"
   else none
 
 end Bpp.ParamList
